@@ -233,6 +233,9 @@ class CliOptions(Stage):
                 c = gen_chatter(d)[:200]
                 lines.append(['chat', c])
             lines.append(['msg', wire.render(m, 'new')])
+            if d.chance(0.12):
+                # progress text redrawn with bare carriage returns: each piece is a line of its own, in file mode as in pipe mode
+                lines.append(['chat', d.choice(['fetching 10%\rfetching 80%\rdone', 'a\rb', 'loading cache...\rloading cache... ok', 'x\ry\rz w'])])
         opts = []
         if d.chance(0.5): opts += ['-b', d.choice(['.sync', '*', 'wl_display', '!', '.nothing_has_this_name', 'wl_registry, .delete_id'])]
         if d.chance(0.4): opts += ['--supress']
